@@ -21,7 +21,7 @@ PROP = {
         "a quarter of the arrivals are held after their registration and before they start to wait for their verdict (hook queue.registered-before-wait) until the controller has processed the next tick or the shutdown: a verdict issued in that gap must still reach the request",
         "the gateway's log level (LOG_LEVEL: off in three cases of eight, else error / info / debug / trace; what is logged is thrown away, what a log statement does to build its arguments happens) is a generated part of every case of TestQueueSchedules: no answer may depend on it; a failing case reports its level",
         "one arrival in six of the virtual-clock schedules is a retried call: it carries the transaction id of an earlier request of the case that was allowed, has returned and whose clean-up has finished (the interceptors re-send x-lunar-req-id); it queues like any other arrival",
-        "real-clock TTL unit: in one case of four the store behind the quota is slow around the expiry of the head of the queue: the processing loop (the goroutine that consults the quota's state and was not started by the harness) is kept inside a consultation, at a yield point of the shared state (hook 82f82ff), from 300 ms before that expiry on with a pause of 100 ms in every second, until the head has its verdict - the head's time-to-live ends while the loop holds it 'in processing', and its verdict is due when that consultation ends (observed: 1.6 s after arrival at ttl 1 s); quota_max arrivals plus 1-2 that wait, all priorities distinct, the clock not ahead of the timers in these cases",
+        "real-clock TTL unit: in one case of four the store behind the quota is slow around the expiry of the head of the queue: the processing loop (the goroutine that consults the quota's state and was not started by the harness) is kept inside a consultation, at a yield point of the shared state (hook 82f82ff), from 300 ms before that expiry on with a pause of 100 ms in every second, until the head has its verdict - the head's time-to-live ends while the loop holds it 'in processing', and its verdict is due when that consultation ends (observed: 1.6 s after arrival at ttl 1 s); quota_max arrivals plus 1-2 that wait, all priorities distinct, the clock not ahead of the timers in these cases; in half of them the quota's window is one second, so that it re-opens at about the instant the head's time-to-live ends and the consultation ends with 'admitted' for a request whose time is up - it still gets exactly one verdict (a second one kills the process: death of the unit's process is a violation)",
         "real-clock TTL unit: in three cases of five the process clock gains 60-250 ms per second on the runtime timers (the processing tick reads the clock, the TTL watcher waits on a runtime timer: a loaded machine fires timers late); the statement's bound (one verdict by TTL plus slack) is judged in real time as before",
         "in-memory queue and state only (the Redis-backed queue of the pro build is absent); one queue processor and one quota (no group_by_header, no parent quota) per case",
         "arrivals are started one after the other (the controller waits until an arrival is registered, refused, or held at the slot check before it goes on); truly simultaneous arrivals exist only through the hold at queue.slot-checked",
